@@ -853,3 +853,155 @@ func IsRecvField(addr ssa.Value, recv ssa.Value, idx int) bool {
 	}
 	return fa.X == recv || Resolve(fa.X) == recv
 }
+
+// ---------------------------------------------------------------- misc value helpers
+
+// VariadicInts returns the integer constants of a variadic argument slice built at the
+// call site (`new [n]T (varargs)` + IndexAddr stores + slice), or ok=false.
+func VariadicInts(v ssa.Value) (out []int64, ok bool) {
+	if c, isC := v.(*ssa.Const); isC && c.IsNil() {
+		return nil, true
+	}
+	sl, isS := v.(*ssa.Slice)
+	if !isS {
+		return nil, false
+	}
+	al, isA := sl.X.(*ssa.Alloc)
+	if !isA || al.Referrers() == nil {
+		return nil, false
+	}
+	vals := map[int64]int64{}
+	for _, r := range *al.Referrers() {
+		ia, isIA := r.(*ssa.IndexAddr)
+		if !isIA {
+			continue
+		}
+		idx, okI := ConstIntOf(ia.Index)
+		if !okI || ia.Referrers() == nil {
+			return nil, false
+		}
+		for _, rr := range *ia.Referrers() {
+			if st, isSt := rr.(*ssa.Store); isSt && st.Addr == ia {
+				k, okK := ConstIntOf(st.Val)
+				if !okK {
+					return nil, false
+				}
+				vals[idx] = k
+			}
+		}
+	}
+	for i := int64(0); i < int64(len(vals)); i++ {
+		k, have := vals[i]
+		if !have {
+			return nil, false
+		}
+		out = append(out, k)
+	}
+	return out, true
+}
+
+// ReturnVals resolves the results of a return, looking through the result cells that
+// go/ssa introduces in functions with defers (`*t0 = v; rundefers; t = *t0; return t`).
+func ReturnVals(ret *ssa.Return) []ssa.Value {
+	out := make([]ssa.Value, len(ret.Results))
+	b := ret.Block()
+	for i, r := range ret.Results {
+		out[i] = r
+		u, ok := r.(*ssa.UnOp)
+		if !ok || u.Op != token.MUL {
+			continue
+		}
+		al, ok := u.X.(*ssa.Alloc)
+		if !ok {
+			continue
+		}
+		for k := len(b.Instrs) - 1; k >= 0; k-- {
+			if st, ok := b.Instrs[k].(*ssa.Store); ok && st.Addr == al {
+				out[i] = st.Val
+				break
+			}
+		}
+	}
+	return out
+}
+
+// IsLoadOfGlobal reports whether v is `*g`.
+func IsLoadOfGlobal(v ssa.Value, g *ssa.Global) bool {
+	u, ok := v.(*ssa.UnOp)
+	return ok && u.Op == token.MUL && u.X == g
+}
+
+// IsNilConst reports whether v is a nil constant.
+func IsNilConst(v ssa.Value) bool {
+	c, ok := v.(*ssa.Const)
+	return ok && c.IsNil()
+}
+
+// BlockDominatesInstr: every path to `in` enters block b first (b == in.Block() counts).
+func BlockDominatesInstr(b *ssa.BasicBlock, in ssa.Instruction) bool {
+	return b == in.Block() || b.Dominates(in.Block())
+}
+
+// CallArgs returns the call's arguments without the receiver.
+func CallArgs(c ssa.CallInstruction) []ssa.Value {
+	cc := c.Common()
+	if cc.IsInvoke() {
+		return cc.Args
+	}
+	if sc := cc.StaticCallee(); sc != nil && sc.Signature.Recv() != nil && len(cc.Args) > 0 {
+		return cc.Args[1:]
+	}
+	return cc.Args
+}
+
+// CallRecv returns the receiver of a method call (nil for plain functions).
+func CallRecv(c ssa.CallInstruction) ssa.Value {
+	cc := c.Common()
+	if cc.IsInvoke() {
+		return cc.Value
+	}
+	if sc := cc.StaticCallee(); sc != nil && sc.Signature.Recv() != nil && len(cc.Args) > 0 {
+		return cc.Args[0]
+	}
+	return nil
+}
+
+// NilCmpEdges finds `if v == nil` / `if v != nil` on value v; returns the block
+// entered when v is nil and the one entered when it is non-nil.
+func NilCmpEdges(fn *ssa.Function, match func(ssa.Value) bool) (out []struct{ If *ssa.If; Nil, NonNil *ssa.BasicBlock }) {
+	for _, b := range fn.Blocks {
+		if len(b.Instrs) == 0 {
+			continue
+		}
+		ifi, ok := b.Instrs[len(b.Instrs)-1].(*ssa.If)
+		if !ok {
+			continue
+		}
+		v, neg := stripNot(ifi.Cond)
+		bo, ok := v.(*ssa.BinOp)
+		if !ok || (bo.Op != token.EQL && bo.Op != token.NEQ) {
+			continue
+		}
+		var x ssa.Value
+		if IsNilConst(bo.Y) {
+			x = bo.X
+		} else if IsNilConst(bo.X) {
+			x = bo.Y
+		} else {
+			continue
+		}
+		if !match(x) {
+			continue
+		}
+		eq := bo.Op == token.EQL
+		if neg {
+			eq = !eq
+		}
+		e := struct{ If *ssa.If; Nil, NonNil *ssa.BasicBlock }{ifi, b.Succs[0], b.Succs[1]}
+		if !eq {
+			e.Nil, e.NonNil = e.NonNil, e.Nil
+		}
+		out = append(out, e)
+	}
+	return
+}
